@@ -4,6 +4,7 @@
   (a constant of the model, observed on the Go side by the twin/overwrite probe).
 -/
 import Rtp.Proofs.H264Basic
+import Rtp.Proofs.H264Resync
 import Rtp.Model.H264Obs
 namespace Rtp.Props.C09.H264
 open Rtp Rtp.Model.H264 Rtp.Model.H264.Obs Rtp.Pred Rtp.Proofs.H264
@@ -40,6 +41,21 @@ theorem c09_run_nopanic_h264 (avc : Bool) (buf : Bytes) (ps : List Bytes) :
     rcases hr with rfl | hr
     · exact unmarshal_ne_panic avc buf p
     · exact ih _ r hr
+
+/-- reuse: the receiver's state matters only to FU-A packets (type 28, ≥ 2 bytes).  Every other
+    payload — single NAL unit, STAP-A, rejected ones, nil/empty — is decoded exactly as by a fresh
+    receiver and leaves the retained buffer untouched. -/
+theorem c09_h264_state_only_fua (avc : Bool) (buf p : Bytes)
+    (hp : ∀ h fh tl, p = h :: fh :: tl → Rtp.Spec.Rfc6184.hType h ≠ 28) :
+    unmarshal avc buf p = ((unmarshal avc [] p).1, buf) :=
+  unmarshal_other avc buf p hp
+
+/-- … and an FU-A start fragment makes the state irrelevant too (the §7 row 18 repair) -/
+theorem c09_h264_start_resets (avc : Bool) (buf : Bytes) (h fh : UInt8) (tl : Bytes)
+    (e : Rtp.Spec.Rfc6184.hType h = 28) (hs : Rtp.Spec.Rfc6184.fuS fh = true) :
+    unmarshal avc buf (h :: fh :: tl) = unmarshal avc [] (h :: fh :: tl) := by
+  rw [unmarshal_fua avc buf h fh tl e, unmarshal_fua avc [] h fh tl e]
+  simp [hs]
 
 /-- non-vacuity: the §7 row 18 history on the repaired model — the abandoned fragment is dropped -/
 example : (run false [] [[0x7C, 0x85, 1, 2, 3], [0x7C, 0x85, 7, 8], [0x7C, 0x45, 9]]).1 =
